@@ -138,7 +138,11 @@ func runC17(c *hx.Ctx) {
 				c.Emit("direct fifo %d %s ok", s.id, s.name)
 			}
 		}
-		if len(s.fails) > 0 {
+		if len(s.fails) > 0 && s.envSlow {
+			// the environment did not meet its obligation (a prompt peer's answer took longer than the timeout)
+			c.Emit("direct liveness %d %s ok inconclusive-slow-machine %s", s.id, s.name, strings.Join(s.fails, ","))
+			c.Stat("inconclusive_slow_machine", 1)
+		} else if len(s.fails) > 0 {
 			c.Emit("direct liveness %d %s FAIL %s", s.id, s.name, strings.Join(s.fails, ","))
 			c.Stat("liveness_fail", 1)
 		} else {
